@@ -24,6 +24,11 @@ def build(H, tier, seed):
     C.vc_codegen_product(H)
     for op in OPS:
         C.vc_product_operator(H, op)
+    from contracts import dispatch_c as D
+    D.vc_binary_chain(H)
+    from contracts import codegen_glue_c as G
+    G.vc_do_codegen(H)
+    G.vc_func_builder(H)
     for n, pre, goal in LF.all_lemmas():
         H.add_goal('lemma/' + n, pre, goal)
     # consequences stated in C03, per pair of blades (bilinearity lifts them to multivectors):
